@@ -31,3 +31,6 @@ Proof. exact UseHint_flip. Qed.
 Print Assumptions C05_message_context_binding.
 Print Assumptions C05_public_key_binding.
 Print Assumptions C05_hint_bit_matters.
+(* T6: no conditional compilation inside the algorithm files (the hooks build runs the code users run) *)
+Require F204.Proofs.SourcePins.
+Check F204.Proofs.SourcePins.algorithm_files_have_no_cfg_gates.
